@@ -394,13 +394,13 @@ theorem c07_unsubscribe_stopfirst_counterexample :
 /-! ### Non-vacuity -/
 
 /-- A definitions table with one struct, a well-typed payload, a publisher header map. -/
-def exDefs : Defs := ⟨[], [], [⟨.struct, "m/Event", "Event", [⟨1, .default, "id", .i64⟩, ⟨2, .optional, "msg", .string⟩]⟩]⟩
+def exDefs : Defs := ⟨[], [], [⟨.struct, "m/Event", "Event", [⟨1, .default, "id", .i64, none⟩, ⟨2, .optional, "msg", .string, none⟩]⟩]⟩
 def exCfg : SubCfg := ⟨exDefs, 8, "EventCreated", .struct "m/Event"⟩
 def exVal : Val := .struct [(1, .int 7), (2, .bytes [104, 105])]
 def exHdrs : Hdrs := [(cidHeader, [99]), (opIdHeader, [52, 50]), ([107], [118])]
 
 example : WT exCfg.d exCfg.fuel exCfg.ty exVal := by
-  simp [WT, exCfg, exDefs, exVal, resolve, resolveN, lookupStruct, normFields, lookupVal]
+  simp [WT, exCfg, exDefs, exVal, resolve, resolveN, lookupStruct, normFields, readState, isSetVal, cmpDflt, lookupVal]
 
 example : HdrsOK exHdrs := ⟨by decide, by show 5 + calcSize exHdrs < 2147483648; decide, by decide⟩
 
@@ -411,7 +411,7 @@ example : ∀ m ∈ [Msg.valid 0 exHdrs exVal, .malformed ⟨[1, 2], .garbage⟩
   simp only [List.mem_cons, List.mem_nil_iff, or_false] at hm
   rcases hm with h | h | h | h <;> subst h
   · exact ⟨⟨by decide, by show 5 + calcSize exHdrs < 2147483648; decide, by decide⟩, by
-      simp [WT, exCfg, exDefs, exVal, resolve, resolveN, lookupStruct, normFields, lookupVal]⟩
+      simp [WT, exCfg, exDefs, exVal, resolve, resolveN, lookupStruct, normFields, readState, isSetVal, cmpDflt, lookupVal]⟩
   · exact (c07_malformed_classes exCfg [1, 2] .garbage).1 (by decide)
   · show ([120] : Bytes) ≠ [116]; decide
   · exact (c07_malformed_classes exCfg [0, 0, 0, 0, 9] .garbage).2.2 (by intro n es h; cases h)
